@@ -5,6 +5,7 @@ import XV.Lemmas.InvBlock
 import XV.Lemmas.InvList
 import XV.Lemmas.InvLive
 import XV.Lemmas.InvLedger
+import XV.Lemmas.PlayFull
 /-!
 C02 — token conservation: supply changes only by coinbase, every token is in one place.
 Theorems about the UTXO table of the L1 chain model. `sumU` is the sum of all rows of table "U";
@@ -2494,5 +2495,459 @@ theorem Ledger.toPoolLive {e : Env} {s : St} {C : List Nat} (h : Ledger e s C) :
     exact ⟨hmat r.tx hrP r.off c2, c3⟩
   · intro i hi idx u hu
     exact hmat i hi idx (hl.rows i idx u hu).2
+
+-- ================================================================ `play` with no block-validity hypothesis at all
+
+/-- **`play` keeps the strong pool invariant — no hypothesis on what the block brings.** `hdeps` of
+`play_PoolLive_repaired` is gone: the evicted set may meet the block. The case it excluded: the block confirms a pending
+overwriter `W` of a key version without the pending pure reader `R` of that version; `R` conflicts and is evicted, `W` (a
+dependent of `R` in the pool graph) is rolled back with it, and `applyBlockTxs` applies `W` again. For the block run such a
+`W` is a *new* transaction: after the eviction no row carries its id (`undoFold_Live_gone`), no transaction that stays
+pending cites it (whoever cites an evicted transaction is evicted, `playEvict_cited`), and it is admitted by `admitTx` on
+the rolled-back state — or `play` fails and changes nothing. Remaining hypotheses: block ids pairwise distinct, `e.tx i` has
+id `i`, and the hash-causality of the block transactions that are not pending (`hnew`). -/
+theorem play_PoolLive_full (e : Env) (s : St) (lh : Int) (b : Block) (hinv : PoolLive e s)
+    (hnd : b.txs.Nodup) (hid : ∀ i ∈ b.txs, (e.tx i).id = i)
+    (hnew : ∀ i ∈ b.txs, i ∉ s.pool →
+      (∀ o, lookup s.U (i, o) = none) ∧ (∀ r ∈ (e.tx i).ins, r.tx ≠ i) ∧
+      ((e.tx i).coinbase = true → (e.tx i).ins = [] ∧ feeOf (e.tx i).outs = 0) ∧
+      (∀ j ∈ s.pool, ∀ r ∈ (e.tx j).ins, r.tx ≠ i)) :
+    PoolLive e (play e s lh b).1 := by
+  by_cases hok : (play e s lh b).2 = .ok
+  · obtain ⟨s2, happ, hshape⟩ := play_ok_raw e s lh b hok
+    rw [hshape]
+    have hl := hinv.live
+    have hparents := play_parents_in_block e s lh b hok
+    have hevP := playEvict_sub_pool e s b
+    -- the undo list
+    have hndr : s.pool.reverse.Nodup := by
+      unfold List.Nodup
+      rw [List.pairwise_reverse]
+      exact List.Pairwise.imp (fun h => fun e2 => h e2.symm) hl.nodupL
+    have hevmem : ∀ x, x ∈ s.pool.reverse.filter (fun i => (playEvict e s b).contains i) ↔
+        x ∈ s.pool ∧ x ∈ playEvict e s b := by
+      intro x; simp only [List.mem_filter, List.mem_reverse, List.contains_eq_mem, decide_eq_true_eq]
+    have hevnd := List.Nodup.sublist (List.filter_sublist (p := fun i => (playEvict e s b).contains i)) hndr
+    have hevord : (s.pool.reverse.filter (fun i => (playEvict e s b).contains i)).Pairwise
+        (fun a b => ∀ r ∈ (e.tx b).ins, r.tx ≠ a) :=
+      List.Pairwise.filter _ (by rw [List.pairwise_reverse]; exact hl.order)
+    have hevcl : ∀ t ∈ s.pool.reverse.filter (fun i => (playEvict e s b).contains i), ∀ j ∈ s.pool,
+        (∃ r ∈ (e.tx j).ins, r.tx = t) → j ∈ s.pool.reverse.filter (fun i => (playEvict e s b).contains i) := by
+      intro t ht j hj hc
+      obtain ⟨r, hr, hrt⟩ := hc
+      obtain ⟨_, hte⟩ := (hevmem t).mp ht
+      have hjt : j ≠ t := fun e2 => hl.noSelf j hj r hr (hrt.trans e2.symm)
+      exact (hevmem j).mpr ⟨hj, playEvict_cited e s b t hte j hj hjt r hr hrt⟩
+    have hL1 := undoFold_LiveSum e (s.pool.reverse.filter (fun i => (playEvict e s b).contains i)) s s.pool hinv
+      hevnd (fun t ht => ((hevmem t).mp ht).1) hevord hevcl
+    have hgone := undoFold_Live_gone e (s.pool.reverse.filter (fun i => (playEvict e s b).contains i)) s s.pool hl
+      hevnd (fun t ht => ((hevmem t).mp ht).1) hevord hevcl
+    have hL1mem : ∀ x, x ∈ s.pool.filter
+        (fun x => !(s.pool.reverse.filter (fun i => (playEvict e s b).contains i)).contains x) ↔
+        x ∈ s.pool ∧ x ∉ playEvict e s b := by
+      intro x
+      simp only [List.mem_filter, List.contains_eq_mem, List.mem_reverse, decide_eq_true_eq,
+        Bool.not_eq_eq_eq_not, Bool.not_true, decide_eq_false_iff_not, not_and]
+      constructor
+      · intro ⟨h1, h2⟩; exact ⟨h1, h2 h1⟩
+      · intro ⟨h1, h2⟩; exact ⟨h1, fun _ => h2⟩
+    have hisPool : ∀ i, ((s.pool.filter (fun i => b.txs.contains i)).filter
+        (fun i => !(playEvict e s b).contains i)).contains i = true ↔
+        (i ∈ s.pool ∧ i ∈ b.txs) ∧ i ∉ playEvict e s b := by
+      intro i
+      simp only [List.contains_eq_mem, List.mem_filter, decide_eq_true_eq, Bool.not_eq_eq_eq_not, Bool.not_true,
+        decide_eq_false_iff_not]
+    have hrun := applyBlockTxs_run e lh b.prop _ b.txs _ s2 happ
+    have hfin := blockRun_LiveSum e lh b.prop _ b.txs (playUndone e s b) s2 _ hrun hL1 hnd hid
+      (fun i hi => by
+        rw [hL1mem, hisPool]
+        exact ⟨fun hh => ⟨hh.1.1, hh.2⟩, fun hh => ⟨⟨hh.1, hi⟩, hh.2⟩⟩)
+      (fun i hi hp => by
+        have hnot : ¬ ((i ∈ s.pool ∧ i ∈ b.txs) ∧ i ∉ playEvict e s b) := by
+          intro hh
+          rw [(hisPool i).mpr hh] at hp
+          cases hp
+        by_cases hip : i ∈ s.pool
+        · -- a pending member of the block that was rolled back with an evicted transaction: applied again
+          have hie : i ∈ playEvict e s b := by
+            by_cases hie : i ∈ playEvict e s b
+            · exact hie
+            · exact absurd ⟨⟨hip, hi⟩, hie⟩ hnot
+          refine ⟨fun o => hgone i ((hevmem i).mpr ⟨hip, hie⟩) o, hl.noSelf i hip, ?_, ?_⟩
+          · intro hc; rw [hl.nonCoinbase i hip] at hc; cases hc
+          · intro j hj r hr hri
+            obtain ⟨hjp, hje⟩ := (hL1mem j).mp hj
+            have hji : j ≠ i := fun e2 => hje (e2 ▸ hie)
+            exact hje (playEvict_cited e s b i hie j hjp hji r hr hri)
+        · obtain ⟨n1, n2, n3, n4⟩ := hnew i hi hip
+          refine ⟨fun o => ?_, n2, n3, fun j hj => n4 j ((hL1mem j).mp hj).1⟩
+          apply undoFold_lookup_none _ _ _ _ _ (n1 o)
+          intro t ht r hr he
+          injection he with e1 _
+          exact n4 t ((hevmem t).mp ht).1 r hr e1)
+      (fun i hi r hr hrL => hparents i hi r hr ((hL1mem r.tx).mp hrL).1)
+    have hpool : s.pool.filter (fun i => !b.txs.contains i && !(playEvict e s b).contains i) =
+        (s.pool.filter (fun x => !(s.pool.reverse.filter (fun i => (playEvict e s b).contains i)).contains x)).filter
+          (fun x => !b.txs.contains x) := by
+      rw [List.filter_filter]
+      apply List.filter_congr
+      intro x hx
+      have : (s.pool.reverse.filter (fun i => (playEvict e s b).contains i)).contains x =
+          (playEvict e s b).contains x := by
+        by_cases hxe : x ∈ playEvict e s b
+        · simp [hxe, hx]
+        · simp [hxe]
+      rw [this]
+    unfold PoolLive
+    simp only
+    rw [hpool]
+    exact LiveSum.congr hfin rfl rfl
+  · rw [XV.C05.play_fail_noop e s lh b hok]; exact hinv
+
+/-- `play` keeps `PoolInv` (conservation `Σ U + pending fees = total` included) with no block-validity hypothesis -/
+theorem play_PoolInv_full (e : Env) (s : St) (lh : Int) (b : Block) (hinv : PoolLive e s)
+    (hnd : b.txs.Nodup) (hid : ∀ i ∈ b.txs, (e.tx i).id = i)
+    (hnew : ∀ i ∈ b.txs, i ∉ s.pool →
+      (∀ o, lookup s.U (i, o) = none) ∧ (∀ r ∈ (e.tx i).ins, r.tx ≠ i) ∧
+      ((e.tx i).coinbase = true → (e.tx i).ins = [] ∧ feeOf (e.tx i).outs = 0) ∧
+      (∀ j ∈ s.pool, ∀ r ∈ (e.tx j).ins, r.tx ≠ i)) :
+    PoolInv e (play e s lh b).1 :=
+  (play_PoolLive_full e s lh b hinv hnd hid hnew).toPoolInv
+
+/-- **`play` keeps the reachable-state invariant `Ledger` — neither `hdeps` nor `hord`.** Both block-validity hypotheses
+of `play_Ledger_repaired` are discharged by the acceptance of the block: the evicted set may meet the block (a pending
+member rolled back with an evicted transaction is not logged any more, `Led.noRow`, and joins the confirmed log through
+admission like a new transaction), and the block order is a consequence of `parentMissing` (`play_order_pending_ins`: no
+transaction of an accepted block cites a *pending* transaction that stands later; a citation of a later transaction that
+is not pending is refused by admission, see `play_block_order`). Remaining hypotheses: block ids pairwise distinct,
+`e.tx i` has id `i`, none already confirmed, a coinbase of the block has no inputs and no fee. -/
+theorem play_Ledger_full (e : Env) (s : St) (lh : Int) (b : Block) (C : List Nat) (h : Ledger e s C)
+    (hnd : b.txs.Nodup) (hid : ∀ i ∈ b.txs, (e.tx i).id = i) (hnewC : ∀ i ∈ b.txs, i ∉ C)
+    (haward : ∀ i ∈ b.txs, i ∉ s.pool → (e.tx i).coinbase = true → (e.tx i).ins = [] ∧ feeOf (e.tx i).outs = 0) :
+    Ledger e (play e s lh b).1 (if (play e s lh b).2 = .ok then C ++ b.txs else C) := by
+  by_cases hok : (play e s lh b).2 = .ok
+  · rw [if_pos hok]
+    obtain ⟨s2, happ, hshape⟩ := play_ok_raw e s lh b hok
+    rw [hshape]
+    have hl := h.led
+    have hparents := play_parents_in_block e s lh b hok
+    have hordP := play_order_pending_ins e s lh b hok hnd
+    obtain ⟨_, hndP, _⟩ := List.nodup_append.mp hl.nodupA
+    obtain ⟨_, hoP, _⟩ := List.pairwise_append.mp hl.order
+    have hndr : s.pool.reverse.Nodup := by
+      unfold List.Nodup
+      rw [List.pairwise_reverse]
+      exact List.Pairwise.imp (fun h => fun e2 => h e2.symm) hndP
+    have hevmem : ∀ x, x ∈ s.pool.reverse.filter (fun i => (playEvict e s b).contains i) ↔
+        x ∈ s.pool ∧ x ∈ playEvict e s b := by
+      intro x; simp only [List.mem_filter, List.mem_reverse, List.contains_eq_mem, decide_eq_true_eq]
+    have hL1 := undoFold_LedSum e (s.pool.reverse.filter (fun i => (playEvict e s b).contains i)) s C s.pool h
+      (List.Nodup.sublist List.filter_sublist hndr)
+      (fun t ht => ((hevmem t).mp ht).1)
+      (List.Pairwise.filter _ (by rw [List.pairwise_reverse]; exact hoP))
+      (fun t ht j hj hc => by
+        obtain ⟨r, hr, hrt⟩ := hc
+        obtain ⟨_, hte⟩ := (hevmem t).mp ht
+        have hjt : j ≠ t := fun e2 => hl.noSelf j (List.mem_append_right _ hj) r hr (hrt.trans e2.symm)
+        exact (hevmem j).mpr ⟨hj, playEvict_cited e s b t hte j hj hjt r hr hrt⟩)
+    have hL1mem : ∀ x, x ∈ s.pool.filter
+        (fun x => !(s.pool.reverse.filter (fun i => (playEvict e s b).contains i)).contains x) ↔
+        x ∈ s.pool ∧ x ∉ playEvict e s b := by
+      intro x
+      simp only [List.mem_filter, List.contains_eq_mem, List.mem_reverse, decide_eq_true_eq,
+        Bool.not_eq_eq_eq_not, Bool.not_true, decide_eq_false_iff_not, not_and]
+      constructor
+      · intro ⟨h1, h2⟩; exact ⟨h1, h2 h1⟩
+      · intro ⟨h1, h2⟩; exact ⟨h1, fun _ => h2⟩
+    have hisPool : ∀ i, ((s.pool.filter (fun i => b.txs.contains i)).filter
+        (fun i => !(playEvict e s b).contains i)).contains i = true ↔
+        (i ∈ s.pool ∧ i ∈ b.txs) ∧ i ∉ playEvict e s b := by
+      intro i
+      simp only [List.contains_eq_mem, List.mem_filter, decide_eq_true_eq, Bool.not_eq_eq_eq_not, Bool.not_true,
+        decide_eq_false_iff_not]
+    have hrun := applyBlockTxs_run e lh b.prop _ b.txs _ s2 happ
+    have hfin := blockRun_LedSum e lh b.prop _ b.txs (playUndone e s b) s2 C _ hrun hL1 hnd hid
+      (fun i hi => by
+        rw [hL1mem, hisPool]
+        exact ⟨fun hh => ⟨hh.1.1, hh.2⟩, fun hh => ⟨⟨hh.1, hi⟩, hh.2⟩⟩)
+      hnewC
+      (fun i hi _ hc => by
+        by_cases hip : i ∈ s.pool
+        · rw [h.poolNonCoinbase i hip] at hc; cases hc
+        · exact haward i hi hip hc)
+      (fun i hi r hr hrL => hparents i hi r hr ((hL1mem r.tx).mp hrL).1)
+      (List.Pairwise.imp (fun hab hb => hab ((hL1mem _).mp hb).1) hordP)
+    have hpool : s.pool.filter (fun i => !b.txs.contains i && !(playEvict e s b).contains i) =
+        (s.pool.filter (fun x => !(s.pool.reverse.filter (fun i => (playEvict e s b).contains i)).contains x)).filter
+          (fun x => !b.txs.contains x) := by
+      rw [List.filter_filter]
+      apply List.filter_congr
+      intro x hx
+      have : (s.pool.reverse.filter (fun i => (playEvict e s b).contains i)).contains x =
+          (playEvict e s b).contains x := by
+        by_cases hxe : x ∈ playEvict e s b
+        · simp [hxe, hx]
+        · simp [hxe]
+      rw [this]
+    unfold Ledger
+    simp only
+    rw [hpool]
+    exact LedSum.congr hfin rfl rfl
+  · rw [if_neg hok, XV.C05.play_fail_noop e s lh b hok]; exact h
+
+-- ================================================================ the block order is a consequence of acceptance
+
+/-- under the ledger invariant, **the transactions of a block that runs cite nothing that is not logged yet**: for `a`
+before `c` in the block, `c` neither confirmed nor pending, `a` does not spend an output of `c`. A pending `a` cites logged
+transactions only (`Led.cites`); a new `a` is admitted against a table every row of which belongs to a logged transaction
+(`Led.rows`), and `c` is not logged when `a` is admitted. -/
+theorem blockRun_LedSum_order (e : Env) (lh : Int) (prop : String) (isPool : Nat → Bool) (txs : List Nat) (s s2 : St)
+    (C P : List Nat) (hrun : blockRun e lh prop isPool txs s s2) (h : LedSum e s C P)
+    (hnd : txs.Nodup) (hid : ∀ i ∈ txs, (e.tx i).id = i)
+    (hpool : ∀ i ∈ txs, (isPool i = true ↔ i ∈ P))
+    (hnewC : ∀ i ∈ txs, i ∉ C)
+    (haward : ∀ i ∈ txs, isPool i = false → (e.tx i).coinbase = true →
+      (e.tx i).ins = [] ∧ feeOf (e.tx i).outs = 0)
+    (hparents : ∀ i ∈ txs, ∀ r ∈ (e.tx i).ins, r.tx ∈ P → r.tx ∈ txs)
+    (hord : txs.Pairwise (fun a b => b ∈ P → ∀ r ∈ (e.tx a).ins, r.tx ≠ b)) :
+    txs.Pairwise (fun a c => c ∉ C → c ∉ P → ∀ r ∈ (e.tx a).ins, r.tx ≠ c) := by
+  induction txs generalizing s C P with
+  | nil => exact List.Pairwise.nil
+  | cons i rest ih =>
+    simp only [List.nodup_cons] at hnd
+    simp only [List.pairwise_cons] at hord
+    have hid' : ∀ j ∈ rest, (e.tx j).id = j := fun j hj => hid j (List.mem_cons_of_mem _ hj)
+    have hne : ∀ j ∈ rest, j ≠ i := fun j hj e2 => hnd.1 (e2 ▸ hj)
+    unfold blockRun at hrun
+    by_cases hp : isPool i = true
+    · have hiP : i ∈ P := (hpool i List.mem_cons_self).mp hp
+      have hnp : ∀ r ∈ (e.tx i).ins, r.tx ∉ P := by
+        intro r hr hrP
+        rcases List.mem_cons.mp (hparents i List.mem_cons_self r hr hrP) with h1 | h1
+        · exact h.led.noSelf i (List.mem_append_right _ hiP) r hr h1
+        · exact hord.1 r.tx h1 hrP r hr rfl
+      simp only [hp, ↓reduceIte] at hrun
+      have hstep := LedSum_confirmPending e s prop C P i h hiP hnp
+      have hmemP' : ∀ x, x ∈ P.filter (fun x => x != i) ↔ x ∈ P ∧ x ≠ i := by
+        intro x; simp only [List.mem_filter, bne_iff_ne, ne_eq]
+      have hrec := ih _ (C ++ [i]) (P.filter (fun x => x != i)) hrun hstep hnd.2 hid'
+        (fun j hj => by
+          rw [hmemP', hpool j (List.mem_cons_of_mem _ hj)]
+          exact ⟨fun hh => ⟨hh, hne j hj⟩, fun hh => hh.1⟩)
+        (fun j hj hm => by
+          rcases List.mem_append.mp hm with hm | hm
+          · exact hnewC j (List.mem_cons_of_mem _ hj) hm
+          · simp only [List.mem_cons, List.not_mem_nil, or_false] at hm; exact hne j hj hm)
+        (fun j hj => haward j (List.mem_cons_of_mem _ hj))
+        (fun j hj r hr hrP => by
+          obtain ⟨h1, h2⟩ := (hmemP' r.tx).mp hrP
+          rcases List.mem_cons.mp (hparents j (List.mem_cons_of_mem _ hj) r hr h1) with h3 | h3
+          · exact absurd h3 h2
+          · exact h3)
+        (List.Pairwise.imp (R := fun a b => b ∈ P → ∀ r ∈ (e.tx a).ins, r.tx ≠ b)
+          (fun hab hb => hab ((hmemP' _).mp hb).1) hord.2)
+      apply List.Pairwise.cons
+      · intro c _ hcC hcP r hr e2
+        have := (h.led.cites i (List.mem_append_right _ hiP) r hr).1
+        rw [e2] at this
+        rcases List.mem_append.mp this with h1 | h1
+        · exact hcC h1
+        · exact hcP h1
+      · apply List.Pairwise.imp_of_mem _ hrec
+        intro a c _ hc hac hcC hcP
+        apply hac
+        · intro hm
+          rcases List.mem_append.mp hm with hm | hm
+          · exact hcC hm
+          · simp only [List.mem_cons, List.not_mem_nil, or_false] at hm; exact hne c hc hm
+        · intro hm; exact hcP ((hmemP' c).mp hm).1
+    · have hp' : isPool i = false := by simpa using hp
+      have hiP : i ∉ P := fun hh => hp ((hpool i List.mem_cons_self).mpr hh)
+      have hnot : i ∉ C ++ P := by
+        intro hm
+        rcases List.mem_append.mp hm with hm | hm
+        · exact hnewC i List.mem_cons_self hm
+        · exact hiP hm
+      have hnp : ∀ r ∈ (e.tx i).ins, r.tx ∉ P := by
+        intro r hr hrP
+        rcases List.mem_cons.mp (hparents i List.mem_cons_self r hr hrP) with h1 | h1
+        · exact hiP (h1 ▸ hrP)
+        · exact hord.1 r.tx h1 hrP r hr rfl
+      simp only [hp, Bool.false_eq_true, ↓reduceIte] at hrun
+      have hstep := LedSum_confirmNew e s lh prop C P i h hnot (hid i List.mem_cons_self) hrun.1
+        (haward i List.mem_cons_self hp') hnp
+      have hrec := ih _ (C ++ [i]) P hrun.2 hstep hnd.2 hid'
+        (fun j hj => hpool j (List.mem_cons_of_mem _ hj))
+        (fun j hj hm => by
+          rcases List.mem_append.mp hm with hm | hm
+          · exact hnewC j (List.mem_cons_of_mem _ hj) hm
+          · simp only [List.mem_cons, List.not_mem_nil, or_false] at hm; exact hne j hj hm)
+        (fun j hj => haward j (List.mem_cons_of_mem _ hj))
+        (fun j hj r hr hrP => by
+          rcases List.mem_cons.mp (hparents j (List.mem_cons_of_mem _ hj) r hr hrP) with h3 | h3
+          · exact absurd (h3 ▸ hrP) hiP
+          · exact h3)
+        hord.2
+      apply List.Pairwise.cons
+      · intro c _ hcC hcP r hr e2
+        obtain ⟨u, hu, _⟩ := (XV.C03.admit_sound s lh (e.tx i) hrun.1).1 r hr
+        have := (h.led.rows r.tx r.off u hu).1
+        rw [e2] at this
+        rcases List.mem_append.mp this with h1 | h1
+        · exact hcC h1
+        · exact hcP h1
+      · apply List.Pairwise.imp_of_mem _ hrec
+        intro a c _ hc hac hcC hcP
+        apply hac _ hcP
+        intro hm
+        rcases List.mem_append.mp hm with hm | hm
+        · exact hcC hm
+        · simp only [List.mem_cons, List.not_mem_nil, or_false] at hm; exact hne c hc hm
+
+/-- **the block order `hord` of `play_Ledger_repaired` follows from acceptance**: in a block accepted by `play` from a
+state satisfying the ledger invariant, no transaction spends an output of a transaction that stands later in the block.
+A citation of a later *pending* transaction is refused by `parentMissing` (`play_order_pending_ins`); a citation of a later
+transaction that is *not pending* makes `admitTx` fail in `applyBlockTxs` — the output is not in the table yet, because
+every row of the table belongs to a logged transaction (`blockRun_LedSum_order`). For key reads the first half holds
+unconditionally (`play_order_pending_kin`: no transaction of an accepted block read a key version written by a pending
+transaction that stands later); the second half needs the key tables explained by the log, see `play_block_order_kin`. -/
+theorem play_block_order (e : Env) (s : St) (lh : Int) (b : Block) (C : List Nat) (h : Ledger e s C)
+    (hok : (play e s lh b).2 = .ok)
+    (hnd : b.txs.Nodup) (hid : ∀ i ∈ b.txs, (e.tx i).id = i) (hnewC : ∀ i ∈ b.txs, i ∉ C)
+    (haward : ∀ i ∈ b.txs, i ∉ s.pool → (e.tx i).coinbase = true → (e.tx i).ins = [] ∧ feeOf (e.tx i).outs = 0) :
+    b.txs.Pairwise (fun a c => ∀ r ∈ (e.tx a).ins, r.tx ≠ c) := by
+  obtain ⟨s2, happ, _⟩ := play_ok_raw e s lh b hok
+  have hl := h.led
+  have hparents := play_parents_in_block e s lh b hok
+  have hordP := play_order_pending_ins e s lh b hok hnd
+  obtain ⟨_, hndP, _⟩ := List.nodup_append.mp hl.nodupA
+  obtain ⟨_, hoP, _⟩ := List.pairwise_append.mp hl.order
+  have hndr : s.pool.reverse.Nodup := by
+    unfold List.Nodup
+    rw [List.pairwise_reverse]
+    exact List.Pairwise.imp (fun h => fun e2 => h e2.symm) hndP
+  have hevmem : ∀ x, x ∈ s.pool.reverse.filter (fun i => (playEvict e s b).contains i) ↔
+      x ∈ s.pool ∧ x ∈ playEvict e s b := by
+    intro x; simp only [List.mem_filter, List.mem_reverse, List.contains_eq_mem, decide_eq_true_eq]
+  have hL1 := undoFold_LedSum e (s.pool.reverse.filter (fun i => (playEvict e s b).contains i)) s C s.pool h
+    (List.Nodup.sublist List.filter_sublist hndr)
+    (fun t ht => ((hevmem t).mp ht).1)
+    (List.Pairwise.filter _ (by rw [List.pairwise_reverse]; exact hoP))
+    (fun t ht j hj hc => by
+      obtain ⟨r, hr, hrt⟩ := hc
+      obtain ⟨_, hte⟩ := (hevmem t).mp ht
+      have hjt : j ≠ t := fun e2 => hl.noSelf j (List.mem_append_right _ hj) r hr (hrt.trans e2.symm)
+      exact (hevmem j).mpr ⟨hj, playEvict_cited e s b t hte j hj hjt r hr hrt⟩)
+  have hL1mem : ∀ x, x ∈ s.pool.filter
+      (fun x => !(s.pool.reverse.filter (fun i => (playEvict e s b).contains i)).contains x) ↔
+      x ∈ s.pool ∧ x ∉ playEvict e s b := by
+    intro x
+    simp only [List.mem_filter, List.contains_eq_mem, List.mem_reverse, decide_eq_true_eq,
+      Bool.not_eq_eq_eq_not, Bool.not_true, decide_eq_false_iff_not, not_and]
+    constructor
+    · intro ⟨h1, h2⟩; exact ⟨h1, h2 h1⟩
+    · intro ⟨h1, h2⟩; exact ⟨h1, fun _ => h2⟩
+  have hisPool : ∀ i, ((s.pool.filter (fun i => b.txs.contains i)).filter
+      (fun i => !(playEvict e s b).contains i)).contains i = true ↔
+      (i ∈ s.pool ∧ i ∈ b.txs) ∧ i ∉ playEvict e s b := by
+    intro i
+    simp only [List.contains_eq_mem, List.mem_filter, decide_eq_true_eq, Bool.not_eq_eq_eq_not, Bool.not_true,
+      decide_eq_false_iff_not]
+  have hrun := applyBlockTxs_run e lh b.prop _ b.txs _ s2 happ
+  have hfin := blockRun_LedSum_order e lh b.prop _ b.txs (playUndone e s b) s2 C _ hrun hL1 hnd hid
+    (fun i hi => by
+      rw [hL1mem, hisPool]
+      exact ⟨fun hh => ⟨hh.1.1, hh.2⟩, fun hh => ⟨⟨hh.1, hi⟩, hh.2⟩⟩)
+    hnewC
+    (fun i hi _ hc => by
+      by_cases hip : i ∈ s.pool
+      · rw [h.poolNonCoinbase i hip] at hc; cases hc
+      · exact haward i hi hip hc)
+    (fun i hi r hr hrL => hparents i hi r hr ((hL1mem r.tx).mp hrL).1)
+    (List.Pairwise.imp (fun hab hb => hab ((hL1mem _).mp hb).1) hordP)
+  -- a later transaction of the block is pending (refused by the guard) or not logged (refused by admission)
+  have hboth : b.txs.Pairwise (fun a c => (c ∈ s.pool → ∀ r ∈ (e.tx a).ins, r.tx ≠ c) ∧
+      (c ∉ C → c ∉ s.pool.filter
+        (fun x => !(s.pool.reverse.filter (fun i => (playEvict e s b).contains i)).contains x) →
+        ∀ r ∈ (e.tx a).ins, r.tx ≠ c)) := List.Pairwise.and hordP hfin
+  apply List.Pairwise.imp_of_mem _ hboth
+  intro a c _ hc hac r hr
+  by_cases hcp : c ∈ s.pool
+  · exact hac.1 hcp r hr
+  · exact hac.2 (hnewC c hc) (fun hm => hcp ((hL1mem c).mp hm).1) r hr
+
+-- non-vacuity of `play_PoolLive_full` / `play_Ledger_full` on the case `hdeps` excluded. Pool [1, 2, 3, 4]: 1 only READS
+-- key "k" (never written), 2 reads the same version and WRITES "k", 3 spends an output of 2, 4 is independent. The block
+-- 11 = [9 (award), 2] confirms the overwriter 2 without the reader 1: `hdeps` fails (2 depends on 1 in the pool graph);
+-- 1 conflicts and is evicted, 2 and its child 3 are rolled back with it, 2 is applied again from the block, 4 stays
+-- pending. Both invariants hold afterwards: Σ U + fee(4) = 25 + 1 = total = 26, ghost log [100, 9, 2].
+example :
+    let e : Env := {
+      txs := [
+        (100, ⟨100, true, [], [⟨"u0", 5, 0⟩, ⟨"u0", 7, 0⟩, ⟨"u0", 4, 0⟩], [], []⟩),
+        (1, ⟨1, false, [⟨100, 0, "u0", 5, 0, false⟩], [⟨"u1", 4, 0⟩, ⟨"$", 1, 0⟩], [⟨"k", none⟩], []⟩),
+        (2, ⟨2, false, [⟨100, 1, "u0", 7, 0, false⟩], [⟨"u2", 6, 0⟩, ⟨"$", 1, 0⟩], [⟨"k", none⟩], [⟨"k", "a", false⟩]⟩),
+        (3, ⟨3, false, [⟨2, 0, "u2", 6, 0, false⟩], [⟨"u3", 6, 0⟩], [], []⟩),
+        (4, ⟨4, false, [⟨100, 2, "u0", 4, 0, false⟩], [⟨"u4", 3, 0⟩, ⟨"$", 1, 0⟩], [], []⟩),
+        (9, ⟨9, true, [], [⟨"miner", 10, 0⟩], [], []⟩)],
+      blocks := [(10, ⟨10, some 0, 0, [100], "g"⟩), (11, ⟨11, some 10, 1, [9, 2], "miner"⟩)] }
+    let s1 := (play e {} 0 (e.block 10)).1
+    let s := (doTx e (doTx e (doTx e (doTx e s1 0 1).1 0 2).1 0 3).1 0 4).1
+    s.pool = [1, 2, 3, 4] ∧ (play e s 0 (e.block 11)).2 = .ok ∧
+    ¬ (∀ c ∈ (e.block 11).txs, c ∈ s.pool → ∀ p ∈ s.pool, dependsOn e s.pool c p = true → p ∈ (e.block 11).txs) ∧
+    playEvict e s (e.block 11) = [1, 2, 3] ∧
+    PoolLive e s ∧ PoolLive e (play e s 0 (e.block 11)).1 ∧
+    Ledger e s [100] ∧ Ledger e (play e s 0 (e.block 11)).1 [100, 9, 2] ∧
+    (play e s 0 (e.block 11)).1.pool = [4] ∧ sumU (play e s 0 (e.block 11)).1.U = 25 ∧
+    (play e s 0 (e.block 11)).1.total = 26 ∧ curVer (play e s 0 (e.block 11)).1 "k" = some (2, 0) ∧
+    (e.block 11).txs.Pairwise (fun a c => ∀ r ∈ (e.tx a).ins, r.tx ≠ c) := by
+  intro e s1 s
+  have hok : (play e s 0 (e.block 11)).2 = .ok := by decide
+  have g1 : Ledger e s1 [100] := by
+    have := play_Ledger_full e {} 0 (e.block 10) [] (Ledger_genesis e) (by decide) (by decide) (by decide) (by decide)
+    rw [if_pos (by decide)] at this
+    exact this
+  have g2 := doTx_Ledger e s1 0 1 [100] g1 (fun _ => by decide)
+  have g3 := doTx_Ledger e _ 0 2 [100] g2 (fun _ => by decide)
+  have g4 := doTx_Ledger e _ 0 3 [100] g3 (fun _ => by decide)
+  have g5 : Ledger e s [100] := doTx_Ledger e _ 0 4 [100] g4 (fun _ => by decide)
+  have g6 : Ledger e (play e s 0 (e.block 11)).1 [100, 9, 2] := by
+    have := play_Ledger_full e s 0 (e.block 11) [100] g5 (by decide) (by decide) (by decide) (by decide)
+    rw [if_pos hok] at this
+    exact this
+  have p5 : PoolLive e s := g5.toPoolLive
+  have p6 : PoolLive e (play e s 0 (e.block 11)).1 := by
+    apply play_PoolLive_full e s 0 (e.block 11) p5 (by decide) (by decide)
+    intro i hi hnp
+    have hi9 : i = 9 := by
+      have hi' : i = 9 ∨ i = 2 := by simpa [e, Env.block, lookup] using hi
+      rcases hi' with rfl | rfl
+      · rfl
+      · exact absurd (by decide) hnp
+    subst hi9
+    exact ⟨lookup_none_of_noid _ _ (by decide), by decide, by decide, by decide⟩
+  exact ⟨by decide, hok, by decide, by decide, p5, p6, g5, g6, by decide, by decide, by decide, by decide,
+    play_block_order e s 0 (e.block 11) [100] g5 hok (by decide) (by decide) (by decide) (by decide)⟩
+
+-- the two refusals behind `play_block_order`, on concrete blocks over the confirmed state [100] with pool [6]:
+-- [9, 5, 6] cites the later PENDING transaction 6 (refused by the guard, `.utxo` before anything is touched);
+-- [9, 7, 8] cites the later transaction 8 that is NOT pending (refused by admission: the output is not there yet);
+-- both orders [9, 6, 5] and [9, 8, 7] are accepted.
+example :
+    let e : Env := {
+      txs := [
+        (100, ⟨100, true, [], [⟨"u0", 5, 0⟩, ⟨"u0", 7, 0⟩], [], []⟩),
+        (6, ⟨6, false, [⟨100, 0, "u0", 5, 0, false⟩], [⟨"u6", 5, 0⟩], [], []⟩),
+        (5, ⟨5, false, [⟨6, 0, "u6", 5, 0, false⟩], [⟨"u5", 5, 0⟩], [], []⟩),
+        (8, ⟨8, false, [⟨100, 1, "u0", 7, 0, false⟩], [⟨"u8", 7, 0⟩], [], []⟩),
+        (7, ⟨7, false, [⟨8, 0, "u8", 7, 0, false⟩], [⟨"u7", 7, 0⟩], [], []⟩),
+        (9, ⟨9, true, [], [⟨"miner", 10, 0⟩], [], []⟩)],
+      blocks := [(10, ⟨10, some 0, 0, [100], "g"⟩)] }
+    let s := (doTx e (play e {} 0 (e.block 10)).1 0 6).1
+    s.pool = [6] ∧
+    (play e s 0 ⟨11, some 10, 1, [9, 5, 6], "miner"⟩).2 = .utxo ∧ parentMissing e s.pool [] [9, 5, 6] = true ∧
+    (play e s 0 ⟨11, some 10, 1, [9, 7, 8], "miner"⟩).2 = .utxo ∧ parentMissing e s.pool [] [9, 7, 8] = false ∧
+    (play e s 0 ⟨11, some 10, 1, [9, 6, 5], "miner"⟩).2 = .ok ∧
+    (play e s 0 ⟨11, some 10, 1, [9, 8, 7], "miner"⟩).2 = .ok := by decide
 
 end XV.C02
